@@ -261,6 +261,18 @@ Fixpoint leftmost_reads (x : var) (c : cond) : bool :=
   | CNot c => leftmost_reads x c
   | CExists _ _ | CForAll _ _ => false
   end.
+(* x occurs only below attributes and no for_all quantifies it *)
+Fixpoint no_bare_strict (x : var) (c : cond) : bool :=
+  match c with
+  | CCmp _ l r => negb (bare x l) && negb (bare x r)
+  | CAnd l r | CElseIf l r | CUnion l r => no_bare_strict x l && no_bare_strict x r
+  | CNot c => no_bare_strict x c
+  | CExists (OVar _) c => no_bare_strict x c
+  | CExists e c => negb (bare x e) && no_bare_strict x c
+  | CForAll y c => negb (Nat.eqb x y) && no_bare_strict x c
+  end.
+(* ... or a for_all does quantify it, and then the comparison evaluated first in that for_all's body reads it (whatever is
+   bound to x is looked at at once; the body itself is strict) *)
 Fixpoint no_bare (x : var) (c : cond) : bool :=
   match c with
   | CCmp _ l r => negb (bare x l) && negb (bare x r)
@@ -268,7 +280,7 @@ Fixpoint no_bare (x : var) (c : cond) : bool :=
   | CNot c => no_bare x c
   | CExists (OVar _) c => no_bare x c
   | CExists e c => negb (bare x e) && no_bare x c
-  | CForAll y c => (negb (Nat.eqb x y) || leftmost_reads x c) && no_bare x c
+  | CForAll y c => if Nat.eqb x y then leftmost_reads x c && no_bare_strict x c else no_bare x c
   end.
 (* variables certainly bound in every result of the given truth (true: the condition holds); conservative *)
 Definition inter (l m : list var) : list var := filter (fun x => nmem x m) l.
@@ -280,13 +292,29 @@ Fixpoint must (c : cond) (truth : bool) : list var :=
   | CNot c => must c (negb truth)
   | CUnion _ _ | CExists _ _ | CForAll _ _ => []
   end.
-(* x ranges over objects, occurs in the condition only below attributes, and is not enumerated by the selection itself
-   (either it is not selected bare, or every true result of the condition binds it): a nested loop over a selected
-   variable may pull elements that no row shows when an inner selected domain is empty *)
+(* x is not enumerated by the selection itself: either it is not selected bare, or every true result of the condition
+   binds it (a nested loop over a selected variable may pull elements that no row shows when an inner selected domain
+   is empty) *)
+Definition sel_ok (q : query) (x : var) : bool :=
+  negb (existsb (bare x) (q_sels q))
+  || match q_cond q with Some c => nmem x (must c true) | None => false end.
+Definition cond_ok (f : var -> cond -> bool) (q : query) (x : var) : bool :=
+  match q_cond q with Some c => f x c | None => true end.
+Definition nonempty_doms (D : domains) (q : query) : bool :=
+  match q_cond q with
+  | Some c => forallb (fun z => match D z with [] => false | _ => true end) (cond_vars c)
+  | None => true
+  end.
+(* PROVED classes (Eql/TraceAhead.v): x occurs only below attributes, the selection does not enumerate it, and either no
+   for_all quantifies it ([attr_only_strict]) or one does, its body's first comparison reads x, and no variable of the
+   condition has an empty domain ([attr_only_len]) *)
+Definition attr_only_strict (q : query) (x : var) : bool := cond_ok no_bare_strict q x && sel_ok q x.
+Definition attr_only_len (D : domains) (q : query) (x : var) : bool :=
+  cond_ok no_bare q x && sel_ok q x && nonempty_doms D q.
+(* CHECKED on the real engine's logs: the proved classes, for variables that range over objects and occur in the condition *)
 Definition attr_only (D : domains) (q : query) (x : var) : bool :=
   match q_cond q with
-  | Some c => nmem x (cond_vars c) && no_bare x c
-              && (negb (existsb (bare x) (q_sels q)) || nmem x (must c true))
+  | Some c => nmem x (cond_vars c) && (attr_only_strict q x || attr_only_len D q x)
               && forallb (fun v => match v with VO _ => true | _ => false end) (D x)
   | None => false
   end.
@@ -310,6 +338,14 @@ Fixpoint forall_free (c : cond) : bool :=
   | CNot c | CExists _ c => forall_free c
   | CForAll _ _ => false
   end.
+Fixpoint exists_free (c : cond) : bool :=
+  match c with
+  | CCmp _ _ _ => true
+  | CAnd l r | CElseIf l r | CUnion l r => exists_free l && exists_free r
+  | CNot c | CForAll _ c => exists_free c
+  | CExists _ _ => false
+  end.
+Definition exists_free_o (c : option cond) : bool := match c with Some c => exists_free c | None => true end.
 (* F10: every condition without for_all (comparisons, and_, or_ of both kinds, not_, exists), ANY selection.  for_all is
    outside: it materialises the candidate solutions of its condition for the first universal value before it hands
    anything on, and it has to see the whole universal domain to confirm a result (Props/C10.v: C10_forall_eager). *)
